@@ -82,7 +82,9 @@ def inv_value(f, pv, env, out, path):
             out.append((path, fam, "challenge field holds %r" % (pv,)))
             return
         size = model.ALGS.get(pv[2])
-        if size is None or len(pv[0]) != size or len(pv[1]) != size:
+        # (the salt of a digest value given directly - an imported hash - may have any length; the salt the library draws
+        # for a plaintext is C09's subject)
+        if size is None or len(pv[1]) != size:
             out.append((path, fam, "malformed digest value (alg %s, salt %d, digest %d bytes)" % (pv[2], len(pv[0]), len(pv[1]))))
         return
     if fam == "list":
